@@ -222,6 +222,10 @@ def run(tier, seed, replay=None):
                 V.fail("correspondence(model/impl) rank decision in TT-SVD", dict(desc, s=s, impl=r, model=m[0]), failing_input=False)
             else:
                 n_replay_ok += 1
+    # operands whose squared norm under- / overflows although the norm itself is an ordinary number (harness/extremes.py)
+    import extremes
+    extremes.run(V, random.Random(seed + 5), torch, torchtt, [("TT(dense, eps)", lambda d_: torchtt.TT(d_, eps=1e-6), True, None),
+                 ("TT(dense, shape, eps)", lambda d_: torchtt.TT(d_, [4, 9, 6], eps=1e-6), True, lambda a_: a_.reshape(4, 9, 6))], dist, "TT(dense, eps)")
     nviol = V.finish()
     cov = proofcheck.coverage(PID, obl, translation=tr_cov, evaluations=len(mcases) + n, distinct_nontrivial=len(set(json.dumps(m[:1], default=str) for m in replay_meta)) + len(l1),
         rule=("layer 1: every non-increasing integer vector (entries 0..3, length <= 4 quick / 5 thorough) x eps in 0..5(7), three scalings/dtypes, rank_chop called directly and "
